@@ -44,6 +44,7 @@ def history(rng, wld, nsteps, keys):
                 wld.log.emit("api", op="update", key=k, uid=uid)
                 wld.actor(name)
                 kw = {"uid": uid} if uid else {}
+                kw["tags"] = u" ".join(rng.sample([u"ta", u"tb", u"tc"], rng.randrange(0, 4)))
                 wr.update_document(key=k, body=u"xx %s" % k, n=len(k) + step, **kw)
             elif op < 0.5:
                 ret = wr.delete_by_term("key", k)
@@ -91,6 +92,32 @@ def history(rng, wld, nsteps, keys):
         s.close()
 
 
+def prelude(wld, keys):
+    """A directed opening: one segment whose documents share sparse terms in an interleaved pattern, then an
+    update that supersedes a document in the middle of it without merging (the old version stays in the
+    segment, deleted).  Conjunctions must not see the superseded version."""
+    plan = [u"ta", u"tb", u"ta tb", u"ta tb", u"tc", u"ta tc", u"tb tc"]
+    name, wr = wld.writer()
+    for k, tg in zip(keys, plan):
+        wld.actor(name)
+        wld.log.emit("api", op="update", key=k, uid=0)
+        wr.update_document(key=k, body=u"xx %s" % k, n=1, tags=tg)
+    wld.actor(name)
+    wr.commit(merge=False)
+    for victim in (keys[2], keys[5]):
+        name, wr = wld.writer()
+        wld.actor(name)
+        wld.log.emit("api", op="update", key=victim, uid=0)
+        wr.update_document(key=victim, body=u"xx %s" % victim, n=2, tags=u"")
+        wld.actor(name)
+        wr.commit(merge=False)
+        rname = wld.new_reader_name()
+        ok, s = wld.guarded(rname, "searcher", wld.ix.searcher)
+        if ok:
+            wld.probe(rname, s)
+            s.close()
+
+
 def check(run):
     quick = run.tier == "quick"
     rng = random.Random(run.seed + 707)
@@ -108,6 +135,8 @@ def check(run):
         w.rich_probe = True
         w.use_uid = (i % 2 == 1)
         try:
+            if i % 4 == 0:
+                prelude(w, ["k%d" % j for j in range(7)])
             history(random.Random(seed), w, 8 if quick else 25, ["k%d" % j for j in range(7)])
             t = w.trace()
             run.count(len(t))
